@@ -36,6 +36,8 @@ FIXED_BASES = [
     # differences of two parameters under an even / positive operator (|a0| - |a1| after the first round): the pairwise-combination table of sympy_simplify
     ("verif_fx_absdiff", [["x", "a"], ["exp"], ["+", "-"]], 5),
     ("verif_fx_absdiff2", [["x", "a"], ["square", "sqrt_abs"], ["+", "-"]], 5),
+    # every operator name is a single character (the parameter labels a0, a1, .. are the longest strings of a tree)
+    ("verif_fx_short", [["x", "a"], [], ["+", "*", "-"]], 5),
 ]
 
 
